@@ -1,8 +1,8 @@
 /-
   Model/Enforce.lean — `RewriteOversizeTypedDictToDict(k)` (monkeytype/typing.py), applied by `shrink_traced_types` to every
   stored type before merging: the size limit in force when a stub is generated may be smaller than the one the traces were
-  recorded under.  A TypedDict with more than `k` keys becomes `Dict[str, Union[its value types]]`, at every depth the generic
-  rewriter reaches; everything else is rebuilt as it is.
+  recorded under.  A TypedDict with more than `k` keys becomes `Dict[str, Union[its value types]]` with every TypedDict below it
+  rewritten the same way (`tdToDict`), at every depth the generic rewriter reaches; everything else is rebuilt as it is.
 -/
 import MTVerif.Model.Infer
 namespace MT
@@ -19,19 +19,13 @@ def enforce (k : Nat) : Ty → Ty
   | .generator y s r => .generator (enforce k y) (enforce k s) (enforce k r)
   | .union ts => mkUnion (enforceL k ts)
   | .td r o =>
-      if r.length + o.length > k then
-        (match r, o with
-         | [], [] => .dict .any .any
-         | _, _ => .dict (.cls strC) (mkUnion (enforceV k r ++ enforceV k o)))
+      -- oversize: `RewriteAnonymousTypedDictToDict` on the whole subtree (no TypedDict is left below it)
+      if r.length + o.length > k then tdToDict (.td r o)
       else .td (enforceF k r) (enforceF k o)
   | t => t
 def enforceL (k : Nat) : List Ty → List Ty
   | [] => []
   | t :: ts => enforce k t :: enforceL k ts
-/-- the value types of a field list, rewritten -/
-def enforceV (k : Nat) : List (String × Ty) → List Ty
-  | [] => []
-  | (_, t) :: fs => enforce k t :: enforceV k fs
 /-- a field list with its value types rewritten -/
 def enforceF (k : Nat) : List (String × Ty) → List (String × Ty)
   | [] => []
